@@ -25,7 +25,7 @@ def models_draw(draw):
 
 PROF = gen.Profile(kinds=["region"] * 3 + ["task"] * 2 + ["idle", "mark", "mark", "flush", "kernel"]
                    + ["state"] * 3 + ["affinity"] * 2,
-                   models=models_draw, max_looms=1, max_procs=2, max_threads=2, max_cpus=3, min_threads=2,
+                   models=models_draw, max_looms=2, max_procs=2, max_threads=2, max_cpus=3, min_threads=2,
                    steps=(10, 80), modes=("legal", "legal", "legal", "illegal"), lint=False, marks=2,
                    ranks=True, unwind=False)
 
